@@ -134,7 +134,8 @@ def random_cfgs(tier, base_id, algos=("SOO", "StoSOO", "DOO"), neg=False, allq=F
                 prm["k"] = rnd.choice([1, 2, 3])
             shift = rnd.choice([0, 0, -1, -2]) if not neg else rnd.choice([-1, -2, -3])
             cfgs.append({"id": i, "algo": algo, "kind": kind, "K": Kk, "D": D, "box": box, "n": n, "T": n if rnd.random() < 0.8 else rnd.randint(3, n), "prm": prm, "pattern": pat, "shift": shift,
-                         "seed": rnd.randrange(1 << 30), "queries": sorted(rnd.sample(range(3, n), 3)) if rep % 3 == 0 else (list(range(n)) if allq and rep % 3 == 1 else []), "rtype": [None, "f32", "f64", "i64", "int", None][rep % 6] if pat != "ints" else ["int", "i64", "int", None][rep % 4]})
+                         "seed": rnd.randrange(1 << 30), "queries": sorted(rnd.sample(range(3, n), 3)) if rep % 3 == 0 else (list(range(n)) if allq and rep % 3 == 1 else []),
+                         "midq": (sorted(rnd.sample(range(2, n), 4)) if rep % 4 == 1 else (list(range(n)) if rep % 8 == 3 else [])) if algo != "SequOOL" else [], "rtype": [None, "f32", "f64", "i64", "int", None][rep % 6] if pat != "ints" else ["int", "i64", "int", None][rep % 4]})
     return cfgs
 
 
